@@ -219,6 +219,7 @@ def gen_cases(ctx, n):
     cases = list(specials())
     while len(cases) < len(specials()) + n:
         m, items = c8.rand_history(rng, False)
+        items = [it for it in items if it[0] not in c8.FILE_KINDS]     # C12 exports one object; files are C08's
         x = rng.random()
         if x < 0.3:
             items = items + [['D']]
